@@ -184,6 +184,36 @@ func spinningBlugeGoroutines(dump string) map[string][]string {
 	return rv
 }
 
+var anyGoroutineHdr = regexp.MustCompile(`(?m)^goroutine (\d+) \[([^\],]+)`)
+
+// lockWaitersInBluge maps every goroutine of the dump that waits for a
+// sync.Mutex / sync.RWMutex taken from bluge code (the first frame outside
+// sync, runtime and internal/* is a bluge function) to that function. Inside
+// a bubble such a wait is not a durable block: two goroutines of the code
+// under test deadlocked on its own locks keep the bubble from ever quiescing.
+func lockWaitersInBluge(dump string) map[string]string {
+	rv := map[string]string{}
+	for _, blk := range strings.Split(dump, "\n\n") {
+		m := anyGoroutineHdr.FindStringSubmatch(blk)
+		if m == nil || !(strings.Contains(m[2], "Mutex") || strings.Contains(m[2], "semacquire")) {
+			continue
+		}
+		for _, l := range strings.Split(blk, "\n")[1:] {
+			if strings.HasPrefix(l, "\t") || strings.HasPrefix(l, "sync.") || strings.HasPrefix(l, "runtime.") || strings.HasPrefix(l, "internal/") || strings.HasPrefix(l, "created by") {
+				continue
+			}
+			if strings.HasPrefix(l, "github.com/blugelabs/bluge/") {
+				if i := strings.LastIndex(l, "("); i > 0 {
+					l = l[:i]
+				}
+				rv[m[1]] = l + " [" + m[2] + "]"
+			}
+			break
+		}
+	}
+	return rv
+}
+
 // harnessSearchGoroutine reports whether goroutine g of the dump runs a read
 // the harness issued (its stack passes through the harness's read helpers).
 func harnessSearchGoroutine(dump, g string) bool {
@@ -262,7 +292,17 @@ func startWatchdog() {
 					continue
 				}
 			}
-			if len(spin) > 0 {
+			var locked []string
+			l1, l2 := lockWaitersInBluge(d1), lockWaitersInBluge(d2)
+			for g, f := range l1 {
+				if l2[g] == f {
+					locked = append(locked, fmt.Sprintf("goroutine %s in %s", g, f))
+				}
+			}
+			sort.Strings(locked)
+			if len(spin) == 0 && len(locked) > 0 {
+				res.Violation = &Violation{Oracle: "lock-deadlock", Msg: fmt.Sprintf("the system did not come to rest for %v of wall clock within one scheduler window (last released: %s) and nothing is running: goroutines of the code under test wait for its own locks: %s", time.Since(since).Round(time.Second), r.lastRel, strings.Join(locked, "; ")), Win: r.s.Win}
+			} else if len(spin) > 0 {
 				res.Violation = &Violation{Oracle: "livelock", Msg: fmt.Sprintf("the system did not come to rest for %v of wall clock within one scheduler window (last released: %s); running without ever blocking: %s", time.Since(since).Round(time.Second), r.lastRel, strings.Join(spin, "; ")), Win: r.s.Win}
 			} else {
 				res.Harness = "watchdog: the bubble did not quiesce for 28 s and no goroutine of bluge/index is spinning:\n" + tailStr(d2, 6000)
